@@ -84,7 +84,7 @@ theorem closed_respects : Respects env (Closed : RS σ ω → RS σ ω → Prop)
 theorem unobserved_step_is_local (clock : Int) (rs : RS σ ω) (h : rs.st.listeners = []) :
     (executeOnce env clock rs).2.world = rs.world ∧ (executeOnce env clock rs).2.st.listeners = [] := by
   unfold executeOnce
-  have key := rel_executeOnce_tail (closed_respects env) clock
+  have key := rel_executeOnce_tail (closed_respects env).toQ clock
     { rs with st := { rs.st with time := clock, sentEvents := [] } }
   simp only [M.bind, M.modify] at key ⊢
   have := key h
